@@ -525,7 +525,7 @@ def main(rep, ws, tier):
                 ctx = P.Ctx(); g = G(ctx, t); g.unit('a1', 3); n += 1
                 ctx.cancel = True
                 pt = [ctx.rat(x) for x in res[1:4]]
-                bary = [ctx.rat(x) for x in res[4:7]] if tier != 'quick' else None
+                bary = None
                 pos, d = g.vec('a1'), g.vec('a1', 3); v0, v1, v2 = g.vec('a2'), g.vec('a3'), g.vec('a4')
                 nrm = g.cross(g.sub(v2, v1), g.sub(v1, v0))
                 if not g.vzero(g.cross(g.sub(pt, pos), d)): return 'hit point is not on the line', None
@@ -534,10 +534,26 @@ def main(rep, ws, tier):
                 bx, by, bz = res[4:7]
                 want_y = T.binop('fsub', T.binop('fsub', T.fp_from_value(lt, 1.0), bx, lt), bz, lt)
                 if by is not want_y and not T.equiv(by, want_y): return 'barycentric.y is not 1 - x - z', None
-                if bary is not None:
-                    rec = g.add(g.add(g.scale(v0, bary[0]), g.scale(v1, bary[1])), g.scale(v2, bary[2]))
-                    if not g.vzero(g.sub(rec, pt)): return 'barycentric coordinates do not reproduce the hit point', None
-            return (None, 'hit point on the line and in the plane; barycentrics sum to 1%s (%d accepting case(s))' % (' and reproduce it' if tier != 'quick' else '', n)) if n else ('no accepting exit', None)
+                if tier != 'quick' or n == 1:
+                    # modular (quick: first accepting case only): for EVERY point q = v0 + al*(v1-v0) + be*(v2-v0) of the triangle's plane put in place of the hit
+                    # point, the formulas give barycentric.z = be and barycentric.x = 1 - al - be; with the hit point in the
+                    # plane (above) and y = 1 - x - z the coordinates reproduce it.
+                    if any(x.op in ('in', 'const') for x in res[1:4]): return 'hit point is not a computed value', None
+                    qn = [T.inp('q#pt', i * sz, sz, lt) for i in range(3)]
+                    al, be = T.inp('q#al', 0, sz, lt), T.inp('q#be', 0, sz, lt)
+                    mp = {res[1 + i]: qn[i] for i in range(3)}
+                    bx2, bz2 = T.subst(bx, mp), T.subst(bz, mp)
+                    c2 = P.Ctx(); c2.cancel = True; g2 = G(c2, t)
+                    w0, w1, w2 = g2.vec('a2'), g2.vec('a3'), g2.vec('a4')
+                    ra, rb_ = (P.patom(c2.key(al)), ONE), (P.patom(c2.key(be)), ONE)
+                    qv = g2.add(w0, g2.add(g2.scale(g2.sub(w1, w0), ra), g2.scale(g2.sub(w2, w0), rb_)))
+                    for i in range(3):
+                        if qv[i][1] != ONE: raise P.NotPoly('parametrised point is not polynomial')
+                        c2.lin[c2.key(qn[i])] = qv[i][0]
+                    if not c2.requal(c2.rat(bz2), rb_): return 'barycentric.z of a point v0 + a*(v1-v0) + b*(v2-v0) is not b', None
+                    want_x = c2.radd((P.pconst(1), ONE), (P.pneg(P.padd(ra[0], rb_[0])), ONE))
+                    if not c2.requal(c2.rat(bx2), want_x): return 'barycentric.x of a point v0 + a*(v1-v0) + b*(v2-v0) is not 1 - a - b', None
+            return (None, 'hit point on the line and in the plane; barycentrics sum to 1%s (%d accepting case(s))' % (' and reproduce it', n)) if n else ('no accepting exit', None)
         run('w_tri', 'R15.tri', tri)
     rep.floor('geometric primitive obligations', len(rep.obs), 22 * len(types))
     rep.assumptions += ['exact real arithmetic at a generic point (zero / parallel tests false unless identically zero)', '|dir| = 1 for Line3 (R15.set), |normal| = 1 for Plane3 (every set overload)']
